@@ -27,7 +27,7 @@ REQUIRED_MONITORS = ["C03.mean_a1", "C03.mean_b2", "C03.mean_direction==atan2(B,
 REQUIRED_REACH = ["spectrum.py:WaveSpectrum._spectral_weighted", "spectrum.py:WaveSpectrum._mean_direction",
                   "spectrum.py:WaveSpectrum._spread"]
 TIMEOUT = {"quick": 600, "thorough": 3000}
-N = {"quick": (8, 24), "thorough": (16, 400)}
+N = {"quick": (8, 24), "thorough": (16, 120)}
 
 
 def plan(tier, seed):
